@@ -537,6 +537,15 @@ func (association *Association) saveAssociation(clear bool, values ...interface{
 	associationDB := association.DB.Session(&Session{}).Model(nil)
 	if !association.DB.FullSaveAssociations {
 		associationDB.Select(selectedSaveColumns)
+	} else if association.Relationship.Type == schema.BelongsTo {
+		// the key columns are written also when a part of the new key is the zero value
+		fullSaveColumns := []string{clause.Associations}
+		for _, ref := range association.Relationship.References {
+			if !ref.OwnPrimaryKey {
+				fullSaveColumns = append(fullSaveColumns, ref.ForeignKey.Name)
+			}
+		}
+		associationDB.Select(fullSaveColumns)
 	}
 	if len(omitColumns) > 0 {
 		associationDB.Omit(omitColumns...)
